@@ -1,4 +1,306 @@
 import PyxisVerif.Spec.C13
 /-! helper lemmas for C13 -/
 namespace PyxisVerif.C13
+open Gen
+
+theorem cast_ne_ok {α β} (r : Res α) (b : β) : (r.cast : Res β) ≠ .ok b := by
+  cases r <;> simp [Res.cast]
+
+/-! ## `Res.foldlM` -/
+
+/-- an invariant of the steps is an invariant of the loop -/
+theorem foldlM_inv {α β} (f : β → α → Res β) (P : β → Prop)
+    (hstep : ∀ b a b', P b → f b a = .ok b' → P b') :
+    ∀ (l : List α) (b b' : β), P b → Res.foldlM f b l = .ok b' → P b' := by
+  intro l
+  induction l with
+  | nil =>
+    intro b b' hb h
+    simp only [Res.foldlM, Res.ok.injEq] at h
+    exact h ▸ hb
+  | cons a as ih =>
+    intro b b' hb h
+    unfold Res.foldlM at h
+    split at h
+    · rename_i b1 h1
+      exact ih b1 b' (hstep b a b1 hb h1) h
+    all_goals cases h
+
+/-- a loop over a `Unit` accumulator that succeeds has succeeded in every iteration -/
+theorem foldlM_unit_ok {α} (f : Unit → α → Res Unit) :
+    ∀ (l : List α), Res.foldlM f () l = .ok () → ∀ a ∈ l, f () a = .ok () := by
+  intro l
+  induction l with
+  | nil => intro _ a ha; cases ha
+  | cons x xs ih =>
+    intro h a ha
+    unfold Res.foldlM at h
+    split at h
+    · rename_i b1 h1
+      cases List.mem_cons.mp ha with
+      | inl e => subst e; exact h1
+      | inr e => exact ih h a e
+    all_goals cases h
+
+/-! ## the statement loop of `type_definition::build` -/
+
+/-- what one accepted statement does to the list of pending regions -/
+theorem stmtStep_pending (reg : Registry) (scope : List Path) (acc acc' : StmtAcc) (idx : Nat) (st : G.Stmt)
+    (h : stmtStep reg scope acc (idx, st) = .ok acc') :
+    acc'.pending = acc.pending ∨
+    ∃ a r, acc'.pending = acc.pending ++ [(a, r)] ∧ (r.isBase = true → r.name.isSome = true) ∧
+      (∀ n, r.name = some n → ∀ p ∈ acc.pending, p.2.name ≠ some n) := by
+  unfold stmtStep at h
+  simp only at h
+  split at h
+  · rename_i vis name ty hfield
+    split at h
+    · cases h
+    · rename_i doc hdoc
+      split at h
+      · rename_i fa hfa
+        split at h
+        · cases h
+        · rename_i hbase
+          split at h
+          · rename_i t ht
+            generalize hid : (if (name != "_") = true then some name else none : Option String) = ident at h
+            split at h
+            · cases h
+            · rename_i hdup
+              cases h
+              refine .inr ⟨fa.address, _, rfl, ?_, ?_⟩
+              · intro hb
+                simp only at hb
+                simp only [hb, Bool.true_and, beq_iff_eq] at hbase
+                rw [← hid]
+                simp [hbase]
+              · intro n hn p hp hpn
+                simp only at hn
+                apply hdup
+                simp only [Bool.and_eq_true, List.any_eq_true, beq_iff_eq]
+                refine ⟨by rw [hn]; rfl, p, hp, ?_⟩
+                rw [hpn, hn]
+          · exact absurd h (cast_ne_ok _ _)
+      · exact absurd h (cast_ne_ok _ _)
+  · split at h
+    · cases h
+    · split at h
+      · cases h
+      · split at h
+        · split at h
+          · cases h; exact .inl rfl
+          · exact absurd h (cast_ne_ok _ _)
+        · exact absurd h (cast_ne_ok _ _)
+
+/-- the invariant of the statement loop -/
+def PendingOk (acc : StmtAcc) : Prop :=
+  (acc.pending.filterMap (·.2.name)).Nodup ∧ ∀ p ∈ acc.pending, p.2.isBase = true → p.2.name.isSome = true
+
+theorem pendingOk_step (reg : Registry) (scope : List Path) (acc : StmtAcc) (ist : Nat × G.Stmt) (acc' : StmtAcc)
+    (hacc : PendingOk acc) (h : stmtStep reg scope acc ist = .ok acc') : PendingOk acc' := by
+  obtain ⟨idx, st⟩ := ist
+  cases stmtStep_pending reg scope acc acc' idx st h with
+  | inl e => unfold PendingOk; rw [e]; exact hacc
+  | inr e =>
+    obtain ⟨a, r, e, hb, hn⟩ := e
+    unfold PendingOk
+    rw [e]
+    refine ⟨?_, ?_⟩
+    · rw [List.filterMap_append, List.nodup_append]
+      refine ⟨hacc.1, ?_, ?_⟩
+      · cases hr : r.name <;> simp [hr]
+      · intro x hx y hy hxy
+        subst hxy
+        rw [List.mem_filterMap] at hx hy
+        obtain ⟨p, hp, hpx⟩ := hx
+        obtain ⟨q, hq, hqx⟩ := hy
+        rw [List.mem_singleton] at hq
+        subst hq
+        exact hn x hqx p hp hpx
+    · intro p hp
+      rw [List.mem_append, List.mem_singleton] at hp
+      cases hp with
+      | inl hp => exact hacc.2 p hp
+      | inr hp => subst hp; exact hb
+
+theorem pendingOk_loop (reg : Registry) (scope : List Path) (stmts : List (Nat × G.Stmt)) (sa : StmtAcc)
+    (h : Res.foldlM (stmtStep reg scope) {} stmts = .ok sa) : PendingOk sa := by
+  refine foldlM_inv (stmtStep reg scope) PendingOk (pendingOk_step reg scope) stmts {} sa ?_ h
+  exact ⟨List.nodup_nil, fun p hp => by cases hp⟩
+
+/-! ## the case loop of `enum_definition::build` -/
+
+theorem enumStmtStep_fields (range : Int × Int) (acc acc' : EnumAcc) (st : G.EnumStmt)
+    (h : enumStmtStep range acc st = .ok acc') :
+    ∃ value, acc'.fields = acc.fields ++ [(st.name, value)] ∧
+      acc.fields.any (fun nv => nv.1 == st.name || nv.2 == value) = false := by
+  unfold enumStmtStep at h
+  split at h
+  · rename_i value hv
+    split at h
+    · cases h
+    · split at h
+      · cases h
+      · rename_i hdup
+        simp only at h
+        generalize (if value + 1 > isizeMax then none else some (value + 1) : Option Int) = last at h
+        split at h
+        · cases h
+          exact ⟨value, rfl, Bool.eq_false_iff.mpr hdup⟩
+        · exact absurd h (cast_ne_ok _ _)
+  · exact absurd h (cast_ne_ok _ _)
+
+/-- the invariant of the case loop: distinct names, distinct values -/
+def CasesOk (acc : EnumAcc) : Prop := (acc.fields.map (·.1)).Nodup ∧ (acc.fields.map (·.2)).Nodup
+
+theorem casesOk_step (range : Int × Int) (acc : EnumAcc) (st : G.EnumStmt) (acc' : EnumAcc)
+    (hacc : CasesOk acc) (h : enumStmtStep range acc st = .ok acc') : CasesOk acc' := by
+  obtain ⟨value, e, hn⟩ := enumStmtStep_fields range acc acc' st h
+  have hn' : ∀ nv ∈ acc.fields, nv.1 ≠ st.name ∧ nv.2 ≠ value := by
+    intro nv hnv
+    have := List.any_eq_false.mp hn nv hnv
+    simpa using this
+  unfold CasesOk
+  rw [e, List.map_append, List.map_append, List.nodup_append, List.nodup_append]
+  refine ⟨⟨hacc.1, by simp, ?_⟩, ⟨hacc.2, by simp, ?_⟩⟩
+  · intro x hx y hy
+    rw [List.mem_map] at hx
+    obtain ⟨nv, hnv, rfl⟩ := hx
+    simp only [List.map_cons, List.map_nil, List.mem_singleton] at hy
+    subst hy
+    exact (hn' nv hnv).1
+  · intro x hx y hy
+    rw [List.mem_map] at hx
+    obtain ⟨nv, hnv, rfl⟩ := hx
+    simp only [List.map_cons, List.map_nil, List.mem_singleton] at hy
+    subst hy
+    exact (hn' nv hnv).2
+
+theorem enum_fields_length (range : Int × Int) :
+    ∀ (stmts : List G.EnumStmt) (acc acc' : EnumAcc), Res.foldlM (enumStmtStep range) acc stmts = .ok acc' →
+      acc'.fields.length = acc.fields.length + stmts.length := by
+  intro stmts
+  induction stmts with
+  | nil =>
+    intro acc acc' h
+    simp only [Res.foldlM, Res.ok.injEq] at h
+    subst h; rfl
+  | cons st rest ih =>
+    intro acc acc' h
+    unfold Res.foldlM at h
+    split at h
+    · rename_i acc1 h1
+      obtain ⟨value, e, _⟩ := enumStmtStep_fields range acc acc1 st h1
+      rw [ih acc1 acc' h, e]
+      simp only [List.length_append, List.length_cons, List.length_nil]
+      omega
+    all_goals cases h
+
+/-- inversion of `enum_definition::build`: the case loop ran on a non-empty list of cases -/
+theorem buildEnum_cases (s : State) (p : Path) (d : G.EnumDef) (r : Resolved) (h : buildEnum s p d = .ok r) :
+    ∃ range acc ed, d.stmts.isEmpty = false ∧ Res.foldlM (enumStmtStep range) {} d.stmts = .ok acc ∧
+      r.inner = .enum ed ∧ ed.fields = acc.fields := by
+  unfold buildEnum at h
+  split at h
+  · cases h
+  · split at h
+    · split at h
+      · cases h
+      · split at h
+        · cases h
+        · rename_i range hrange
+          split at h
+          · cases h
+          · rename_i hne
+            split at h
+            · rename_i acc hacc
+              split at h
+              · cases h
+              · split at h
+                · split at h
+                  · cases h
+                  · split at h
+                    · cases h
+                    · split at h
+                      · cases h
+                      · cases h
+                        exact ⟨range, acc, _, Bool.eq_false_iff.mpr hne, hacc, rfl, rfl⟩
+                · exact absurd h (cast_ne_ok _ _)
+            · exact absurd h (cast_ne_ok _ _)
+      · exact absurd h (cast_ne_ok _ _)
+    · exact absurd h (cast_ne_ok _ _)
+
+/-! ## name lookup -/
+
+theorem resolveString_raw (r : Registry) (scope : List Path) (name : String) (t : DTy)
+    (h : r.resolveString scope name = some t) : ∃ p, t = .raw p ∧ r.contains p = true := by
+  unfold Registry.resolveString at h
+  simp only at h
+  split at h
+  · rename_i p' hf
+    cases h
+    have hm := List.mem_of_find?_eq_some hf
+    rw [List.mem_reverse, List.mem_filter] at hm
+    exact ⟨p', rfl, hm.2⟩
+  · split at h
+    · rename_i p' hf
+      cases h
+      exact ⟨p', rfl, List.find?_some hf⟩
+    · cases h
+
+theorem resolveTy_paths (reg : Registry) (scope : List Path) :
+    ∀ (g : G.Ty) (t : DTy), reg.resolveTy scope g = .ok t → ∀ p ∈ rawPaths t, reg.contains p = true := by
+  intro g
+  induction g with
+  | cptr g ih =>
+    intro t h
+    unfold Registry.resolveTy at h
+    split at h
+    · rename_i t1 h1
+      cases h
+      exact ih t1 h1
+    · rename_i hne
+      exact absurd h (hne t)
+  | mptr g ih =>
+    intro t h
+    unfold Registry.resolveTy at h
+    split at h
+    · rename_i t1 h1
+      cases h
+      exact ih t1 h1
+    · rename_i hne
+      exact absurd h (hne t)
+  | arr g n ih =>
+    intro t h
+    unfold Registry.resolveTy at h
+    split at h
+    · rename_i t1 h1
+      cases h
+      exact ih t1 h1
+    · rename_i hne
+      exact absurd h (hne t)
+  | ident s =>
+    intro t h
+    unfold Registry.resolveTy at h
+    split at h
+    · rename_i t1 h1
+      cases h
+      obtain ⟨p, rfl, hp⟩ := resolveString_raw reg scope s _ h1
+      intro q hq
+      simp only [rawPaths, List.mem_singleton] at hq
+      subst hq; exact hp
+    · cases h
+  | unk n =>
+    intro t h
+    unfold Registry.resolveTy Registry.paddingType at h
+    split at h
+    · rename_i t1 h1
+      cases h
+      obtain ⟨p, rfl, hp⟩ := resolveString_raw reg [] "u8" _ h1
+      intro q hq
+      simp only [rawPaths, List.mem_singleton] at hq
+      subst hq; exact hp
+    · cases h
+
 end PyxisVerif.C13
